@@ -25,7 +25,7 @@ const FUNCS: [&str; 9] = ["a", "b", "c", "d", "e", "x", "y", "f", "q"];
 
 fn preamble() -> String {
     // every word of the vocabulary is a function that records its name and arguments
-    FUNCS.iter().map(|n| format!("{n}() {{ probe {n} \"$@\"; }}\n")).collect()
+    FUNCS.iter().map(|n| render_name(n)).map(|n| format!("{n}() {{ probe {n} \"$@\"; }}\n")).collect()
 }
 
 fn sq(s: &str) -> String {
@@ -36,7 +36,7 @@ fn alias_cmd(t: &Table) -> String {
     let mut s = String::from("alias");
     for d in t {
         s.push(' ');
-        s.push_str(&format!("{}={}", d.name, sq(&render_value(d))));
+        s.push_str(&format!("{}={}", render_name(&d.name), sq(&render_value(d))));
     }
     s
 }
@@ -92,6 +92,7 @@ fn record(args: &[String]) -> i32 {
             continue;
         }
         id += 1;
+        set_spell(id);
         let text = render_line(&line);
         let r = g.rng.gen_range(0..100);
         let (mode, script, eff): (&str, String, Table) = if r < 50 {
@@ -101,7 +102,7 @@ fn record(args: &[String]) -> i32 {
         } else if r < 85 {
             let removed: Vec<String> = tb.iter().filter(|_| g.rng.gen_range(0..2) == 0).map(|d| d.name.clone()).collect();
             let eff: Table = tb.iter().filter(|d| !removed.contains(&d.name)).cloned().collect();
-            let un = if removed.is_empty() { "unalias -a".to_string() } else { format!("unalias {}", removed.join(" ")) };
+            let un = if removed.is_empty() { "unalias -a".to_string() } else { format!("unalias {}", removed.iter().map(|n| render_name(n)).collect::<Vec<_>>().join(" ")) };
             let eff = if removed.is_empty() { Table::new() } else { eff };
             ("unal", format!("{}\n{}\n{}\n", alias_cmd(&tb), un, text), eff)
         } else {
@@ -119,7 +120,7 @@ fn record(args: &[String]) -> i32 {
         let full = format!("{}{}", preamble(), script);
         let obs = sh(&full);
         let st = if obs.outcome == "completed" { "ok" } else if obs.outcome == "steplimit" || obs.outcome == "deadlock" { "hang" } else { "panic" };
-        let rec = json!({"id": id, "tb": table_json(&eff), "line": line, "st": st, "wordsok": false, "words": [],
+        let rec = json!({"id": id, "spell": spell_now(), "tb": table_json(&eff), "line": line, "st": st, "wordsok": false, "words": [],
             "mode": mode, "script": script, "obs": obs.json()});
         writeln!(out, "{rec}").unwrap();
     }
@@ -139,6 +140,7 @@ fn redo(args: &[String]) -> i32 {
         }
         let mut r: Value = serde_json::from_str(&l).expect("json");
         id += 1;
+        set_spell(r["spell"].as_u64().unwrap_or(0) as usize);
         let obs = sh(&format!("{}{}", preamble(), r["script"].as_str().unwrap_or("")));
         r["st"] = json!(if obs.outcome == "completed" { "ok" } else if obs.outcome == "steplimit" || obs.outcome == "deadlock" { "hang" } else { "panic" });
         r["obs"] = obs.json();
@@ -181,6 +183,7 @@ fn judge(args: &[String]) -> i32 {
             n_unspec += 1;
             continue;
         }
+        set_spell(r["spell"].as_u64().unwrap_or(0) as usize);
         let mut ok = false;
         let mut hands = Vec::new();
         for a in s["res"].as_array().unwrap() {
@@ -207,7 +210,7 @@ fn judge(args: &[String]) -> i32 {
             }
         } else {
             n_bad += 1;
-            writeln!(out, "{}", json!({"class": "e2e", "mode": r["mode"], "tb": r["tb"], "line": r["line"], "rec": r, "hand": hands})).unwrap();
+            writeln!(out, "{}", json!({"class": "e2e", "spell": r["spell"], "mode": r["mode"], "tb": r["tb"], "line": r["line"], "rec": r, "hand": hands})).unwrap();
         }
     }
     out.flush().unwrap();
